@@ -363,7 +363,7 @@ theorem toField_renders : ∀ (f : Field) (obj : GoVal) (atys : List (String × 
         simp [hv, hq]
     | objectList =>
       simp only [hkind] at hok
-      obtain ⟨hrep, hoo, hreach, as, rfl, hsub, hne, hval⟩ := hok
+      obtain ⟨hrep, hoo, hreach, _, as, rfl, hsub, hne, hval⟩ := hok
       have hrd := readField_getVal info obj hreach (Or.inr hoo)
       rw [shadow_id info obj hoo] at hrd
       have hse : sub.isEmpty = false := by cases sub <;> simp_all
@@ -404,7 +404,7 @@ theorem toField_renders : ∀ (f : Field) (obj : GoVal) (atys : List (String × 
         simp [rendersVal, hkind, hes, sliceElems, hlen, hall]
     | objectMap =>
       simp only [hkind] at hok
-      obtain ⟨hrep, hoo, hreach, as, rfl, hsub, hne, hval⟩ := hok
+      obtain ⟨hrep, hoo, hreach, _, as, rfl, hsub, hne, hval⟩ := hok
       have hrd := readField_getVal info obj hreach (Or.inr hoo)
       rw [shadow_id info obj hoo] at hrd
       have hse : sub.isEmpty = false := by cases sub <;> simp_all
